@@ -158,6 +158,7 @@ package common
 //@   ensures [C19.nil-iff-bad-bound] result == nil <==> (lessThan == nil || val(lessThan) <= 0)
 //@   ensures [C19.in-range] result != nil ==> (fresh(result) && 0 <= val(result) && val(result) < val(lessThan))
 //@   assume-ensures [ND-sample-nonzero] (result != nil && bitlen(val(lessThan)) >= 250) ==> val(result) != 0
+//@   assume-ensures [ND-sample-not-multiple-of-group-order] (result != nil && bitlen(val(lessThan)) >= 250) ==> (val(result) % secpN != 0 && val(result) % edN != 0)
 
 //@ func GetRandomPositiveRelativelyPrimeInt
 //@   sampler
